@@ -496,7 +496,12 @@ def inlinable(iface):
 
 
 def random_rendering(rng):
-    return Rendering(rng, prefixes={i: rng.choice(["t%d" % i, "ns%d" % i, "p%s" % "abc"[i % 3] * (i + 1)]) for i in range(3)},
+    prefixes = {i: rng.choice(["t%d" % i, "ns%d" % i, "p%s" % "abc"[i % 3] * (i + 1)]) for i in range(3)}
+    if rng.random() < 0.25:
+        # the document's own ns0, ns1, ns2 - bound to other namespaces than the ones suds gives those numbers
+        k = rng.choice([1, 2])
+        prefixes = {i: "ns%d" % ((i + k) % 3) for i in range(3)}
+    return Rendering(rng, prefixes=prefixes,
                      wsdl_tns_is_ns0=rng.random() < 0.3, anonymous=rng.random() < 0.4,
                      mixed_block_forms=rng.random() < 0.3, block_styles=rng.random() < 0.6,
                      root_prefixes=rng.random() < 0.7, default_ns_schema=rng.random() < 0.4, shuffle=rng.random() < 0.7, groups=rng.random() < 0.5,
